@@ -95,7 +95,20 @@ class FuncInfo:
         return any(d.split("(")[0].split(".")[-1] in ("lru_cache", "cache") for d in self.decos)
 
     KNOWN_DECOS = ("property", "cached_property", "classmethod", "staticmethod", "model_validator", "field_validator", "computed_field",
-                   "abstractmethod", "lru_cache", "cache", "override", "final", "overload", "field_serializer", "validate_call")
+                   "abstractmethod", "lru_cache", "cache", "override", "final", "overload", "field_serializer", "validate_call",
+                   "contextmanager", "singledispatch", "singledispatchmethod", "register")
+
+    @property
+    def is_contextmanager(self) -> bool:
+        return any(d.split("(")[0].split(".")[-1] == "contextmanager" for d in self.decos)
+
+    @property
+    def dispatch_kind(self) -> str | None:
+        for d in self.decos:
+            b = d.split("(")[0].split(".")[-1]
+            if b in ("singledispatch", "singledispatchmethod"):
+                return b
+        return None
 
     @property
     def unknown_decorators(self) -> list:
@@ -144,6 +157,26 @@ class ClassInfo:
         self.bases: list[ClassInfo] = []       # resolved repo bases
         self.ext_bases: list[str] = []         # unresolved (external) base expressions
         self.is_pydantic = False
+        self.decos = [ast.unparse(d) for d in node.decorator_list]
+
+    KNOWN_EXT_BASES = ("pydantic.BaseModel", "abc.ABC", "typing.NamedTuple", "typing.Generic", "typing.Protocol", "object")
+
+    @property
+    def deco_names(self):
+        return [d.split("(")[0].split(".")[-1] for d in self.decos]
+
+    def own_record_kind(self):
+        if any(e.split("[")[0].endswith("NamedTuple") for e in self.ext_bases):
+            return "namedtuple"
+        if "dataclass" in self.deco_names:
+            return "dataclass"
+        return None
+
+    def dataclass_options(self) -> dict:
+        for d in self.node.decorator_list:
+            if isinstance(d, ast.Call) and ast.unparse(d.func).split(".")[-1] == "dataclass":
+                return {k.arg: ast.literal_eval(k.value) for k in d.keywords}
+        return {}
 
     def __repr__(self):
         return f"<class {self.name}>"
@@ -212,6 +245,11 @@ class Program:
                 mi.imports[a.asname or a.name] = (base, a.name)
         elif isinstance(st, ast.Assign) and len(st.targets) == 1 and isinstance(st.targets[0], ast.Name):
             mi.consts[st.targets[0].id] = st.value
+        elif (isinstance(st, ast.Assign) and len(st.targets) == 1 and isinstance(st.targets[0], (ast.Tuple, ast.List))
+              and isinstance(st.value, (ast.Tuple, ast.List)) and len(st.value.elts) == len(st.targets[0].elts)
+              and all(isinstance(t, ast.Name) for t in st.targets[0].elts) and not any(isinstance(e, ast.Starred) for e in st.value.elts)):
+            for t, e in zip(st.targets[0].elts, st.value.elts):      # A, B = 0, 1
+                mi.consts[t.id] = e
         elif isinstance(st, ast.AnnAssign) and isinstance(st.target, ast.Name) and st.value is not None:
             mi.consts[st.target.id] = st.value
         elif isinstance(st, ast.If):      # e.g. `if TYPE_CHECKING:` imports
